@@ -360,6 +360,37 @@ func newFindOptimizations(tree *RegexTree, opt ParseOptions) *FindOptimizations 
 	return f
 }
 
+// mentionsSurrogate reports whether a literal of the tree, or a bound of one of its sets, is a
+// surrogate code point (U+D800..U+DFFF).
+func mentionsSurrogate(n *RegexNode) bool {
+	isSurrogate := func(r rune) bool { return r >= 0xD800 && r <= 0xDFFF }
+	switch n.T {
+	case NtOne, NtNotone, NtOneloop, NtOneloopatomic, NtOnelazy, NtNotoneloop, NtNotoneloopatomic, NtNotonelazy:
+		if isSurrogate(n.Ch) {
+			return true
+		}
+	case NtMulti:
+		for _, r := range n.Str {
+			if isSurrogate(r) {
+				return true
+			}
+		}
+	}
+	for set := n.Set; set != nil; set = set.sub {
+		for _, r := range set.ranges {
+			if isSurrogate(r.First) || isSurrogate(r.Last) {
+				return true
+			}
+		}
+	}
+	for _, c := range n.Children {
+		if mentionsSurrogate(c) {
+			return true
+		}
+	}
+	return false
+}
+
 func newFindOptimizationsForNode(root *RegexNode, opt ParseOptions, isLeadingPartial bool) *FindOptimizations {
 	f := &FindOptimizations{
 		rightToLeft:       opt.RegexOptions&RightToLeft != 0,
@@ -393,6 +424,12 @@ func newFindOptimizationsForNode(root *RegexNode, opt ParseOptions, isLeadingPar
 				return f
 			}
 		}
+	}
+
+	// The literal analyses below build Go strings, which cannot hold a surrogate code point (it
+	// becomes U+FFFD) although a rune slice can: such a pattern is searched position by position.
+	if mentionsSurrogate(root) {
+		return f
 	}
 
 	// If there's a leading substring, just use IndexOf and inherit all of its optimizations.
